@@ -179,4 +179,20 @@ def gen_formatter():
     yield "Formatter.lean", t
 
 
-ALL = [gen_consts, gen_formatter]
+def gen_html5():
+    """the two stdlib tables `_populate_class_variables` reads, as the running interpreter has them"""
+    from html.entities import html5, codepoint2name
+    items = sorted(html5.items())
+    if any(not v for _, v in items):
+        raise RuntimeError("html5 has an empty value: character[0] would raise in _populate_class_variables")
+    t = HEADER + "namespace BS.Gen\n"
+    t += f"/-- `sorted(html.entities.html5.items())`: {len(items)} (name, characters) pairs -/\n"
+    t += right_nested_def("c15Html5Items", "List Nat × List Nat", [f"({lean_str(k)}, {lean_str(v)})" for k, v in items])
+    c2n = list(codepoint2name.items())
+    t += f"/-- `html.entities.codepoint2name.items()` in dict order: {len(c2n)} pairs -/\n"
+    t += right_nested_def("c15Codepoint2name", "Nat × List Nat", [f"({k}, {lean_str(v)})" for k, v in c2n])
+    t += "end BS.Gen\n"
+    yield "FormatterHtml5.lean", t
+
+
+ALL = [gen_consts, gen_formatter, gen_html5]
